@@ -87,7 +87,7 @@ package fox
 //@   ensures inv: recINV(r)
 //@   ensures unsupported: !implements(r.ResponseWriter, flushErrorer) && !implements(r.ResponseWriter, http.Flusher) ==> errIs(result, http.ErrNotSupported) && wFlush[r.ResponseWriter] == old(wFlush[r.ResponseWriter]) && wFinal[r.ResponseWriter] == old(wFinal[r.ResponseWriter])
 //@   ensures delegated: implements(r.ResponseWriter, flushErrorer) || implements(r.ResponseWriter, http.Flusher) ==> wFlush[r.ResponseWriter] == old(wFlush[r.ResponseWriter]) + 1
-//@   ensures header-first: (implements(r.ResponseWriter, flushErrorer) || implements(r.ResponseWriter, http.Flusher)) && !r.hijacked ==> wFinal[r.ResponseWriter] == 1 && r.size >= 0
+//@   ensures @C14,C15 header-first: (implements(r.ResponseWriter, flushErrorer) || implements(r.ResponseWriter, http.Flusher)) && !r.hijacked ==> wFinal[r.ResponseWriter] == 1 && r.size >= 0
 
 //@ func (*recorder).Push props C14
 //@   requires r != nil
